@@ -15,13 +15,14 @@
                         release-on-error block of updateAndReturnDoc runs and the error is returned
      Quiesce            every writer has returned; the changes feed is read
    Named deviations of the transcribed code from the ideal CAS loop (each adds <<name, writer>> to `dev` when it fires):
-     ErrDropsUnused    an error return of documentUpdateFunc hands nil back for unusedSequences (candidate F2, C07)
      ResurrectNoCas    a writer that READ a tombstone and writes a live document goes through
                        WriteResurrectionWithXattrs, which carries no CAS: if the document is still a tombstone the write
                        is applied even though the tombstone changed since the read
      DeleteRaceError   (Rosmar) a writer that read a live document and writes a tombstone while the document has
                        meanwhile become a tombstone gets a wrapped MissingError before the CAS check; the loop does not
                        retry it and the writer returns that error instead of re-running the callback (-> 409)
+   `dev` also records the path <<"RefusedAfterRetry", w>> (a writer refused while it carries unused sequences of earlier
+   attempts - where candidate F2 leaked before fix d57d9c7) so that the exhaustive run exports witnesses for it.
    Impl* conjuncts define implementation variables, Ghost* history variables; Trace_DocUpdate reuses them.
    Decides C05. *)
 EXTENDS Integers, Sequences, FiniteSets, TLC
@@ -33,7 +34,9 @@ CONSTANTS Writers,      \* all writer ids (1..N)
           Modes,        \* subset of BOOLEAN: values of AllowConflicts
           Kinds         \* subset of {"put", "push", "del"}
 
-W(w) == 10 + w                      \* the revision writer w creates; initial revisions are 1..initLen; 0 = none
+(* revision identities: 0 = none, initial revisions 1..initLen, the revision a put / push of writer w creates is 10 + w
+   (distinct bodies / pushed ids).  DeleteDoc's body is the constant {"_deleted":true}, so the id of a delete is a function
+   of its parent only: two writers deleting the same parent create THE SAME revision, 100 + parent. *)
 NoRes == [cls |-> "none", rev |-> 0, seq |-> 0]
 NoLoc == [tree |-> <<>>, cur |-> 0, seq |-> 0, unused |-> {}, recent |-> {}, casRead |-> -1, readTomb |-> FALSE, readLive |-> FALSE, tomb |-> FALSE]
 
@@ -43,9 +46,9 @@ VARIABLES
                                             \*   sequence, unused_sequences, recent_sequences            (observable)
   last, released,                           \* sequence allocator: last sequence handed out; sequences published as unused (observable)
   pc, res, kind, parg,                      \* per writer: control state, returned value, inputs          (observable)
-  match, ph, att, loc, dso, uo, dropped, dev, top, lost, backIdx,  \* per writer locals: Put's captured matchRev, the pushed history
+  match, ph, att, loc, dso, uo, dev, top, lost, backIdx,  \* per writer locals: Put's captured matchRev, the pushed history
                                             \*   (parent and its ancestors as the client knew them), attempts, computed document,
-                                            \*   updateAndReturnDoc's docSequence / unusedSequences; sequences lost by ErrDropsUnused;
+                                            \*   updateAndReturnDoc's docSequence / unusedSequences;
                                             \*   names of the deviations that fired in this behaviour; the commit with the highest sequence so
                                             \*   far [seq, rev] - what the change cache keeps for the document; revisions overwritten by a
                                             \*   ResurrectNoCas write and the positions in docSeqs of those writes   (hidden)
@@ -58,13 +61,14 @@ conf   == <<allow, initLen, initTomb, ws>>
 bucket == <<cas, tree, cur, seq, unused, recent>>
 alloc  == <<last, released>>
 obsw   == <<pc, res, kind, parg>>
-hidden == <<match, ph, att, loc, dso, uo, dropped, dev, top, lost, backIdx>>
+hidden == <<match, ph, att, loc, dso, uo, dev, top, lost, backIdx>>
 fd     == <<feed, quiesced>>
 ghost  == <<docSeqs, onDoc, initSeq>>
 impl   == <<bucket, alloc, obsw, hidden, fd>>
 vars   == <<conf, impl, ghost, hist>>
 view   == <<conf, impl, ghost>>
 
+W(w) == IF kind[w] = "del" THEN 100 + parg[w] ELSE 10 + w       \* the revision writer w creates
 Range(sq) == {sq[i] : i \in 1..Len(sq)}
 Max(S) == CHOOSE x \in S : \A y \in S : y <= x
 
@@ -99,7 +103,7 @@ Init ==
   /\ pc = [w \in Writers |-> "idle"] /\ res = [w \in Writers |-> NoRes]
   /\ kind = [w \in Writers |-> ""] /\ parg = [w \in Writers |-> 0]
   /\ match = [w \in Writers |-> 0] /\ ph = [w \in Writers |-> <<>>] /\ att = [w \in Writers |-> 0] /\ loc = [w \in Writers |-> NoLoc]
-  /\ dso = [w \in Writers |-> 0] /\ uo = [w \in Writers |-> <<>>] /\ dropped = {} /\ dev = {} /\ top = [seq |-> initLen, rev |-> initLen] /\ lost = {} /\ backIdx = {}
+  /\ dso = [w \in Writers |-> 0] /\ uo = [w \in Writers |-> <<>>] /\ dev = {} /\ top = [seq |-> initLen, rev |-> initLen] /\ lost = {} /\ backIdx = {}
   /\ feed = <<>> /\ quiesced = FALSE
   /\ docSeqs = <<>> /\ onDoc = 1..initLen /\ initSeq = [i \in 1..initLen |-> i]
   /\ hist = <<>>
@@ -136,17 +140,17 @@ Callback(w) ==
        ELSE [err |-> (~IsLeaf(tree, match[w]) \/ Illegal(match[w], Deleted(w), {})), par |-> match[w], m |-> match[w]]
 
 (* one run of documentUpdateFunc for writer w on the current bucket document.
-   error:  named deviation ErrDropsUnused - the named result retUnusedSequences is nil on every error return, the
-           caller overwrites its accumulated unusedSequences with it (docSequence keeps its value).
+   error:  the outer docSequence / unusedSequences keep their values (since the fix d57d9c7 the named result
+           retUnusedSequences is initialised from the parameter; before it an error return handed nil back and the
+           caller lost the sequences of earlier attempts - candidate F2, see NOTES.md).
    ok:     add the revision, winner, assignSequence (reuse docSequence iff still greater than the document's,
            else list it as unused and take the next one), recent_sequences; outer variables updated. *)
 ImplCompute(w) ==
   LET cb == Callback(w) IN
   IF cb.err
   THEN /\ pc' = [pc EXCEPT ![w] = "failed"] /\ match' = [match EXCEPT ![w] = cb.m]
-       /\ uo' = [uo EXCEPT ![w] = <<>>] /\ dropped' = dropped \cup Range(uo[w])
-       /\ dev' = (IF uo[w] # <<>> THEN dev \cup {<<"ErrDropsUnused", w>>} ELSE dev)
-       /\ UNCHANGED <<loc, dso, last>>
+       /\ dev' = (IF uo[w] # <<>> THEN dev \cup {<<"RefusedAfterRetry", w>>} ELSE dev)   \* not a deviation: marks the path F2 was on
+       /\ UNCHANGED <<loc, dso, uo, last>>
   ELSE LET nt    == IF kind[w] = "push" THEN AddChain(tree, PushHist(w), PushIdx(w) - 1, cb.par)
                     ELSE AddRev(tree, W(w), cb.par, Deleted(w))
            reuse == dso[w] > seq
@@ -160,13 +164,13 @@ ImplCompute(w) ==
           /\ last' = (IF reuse THEN last ELSE last + 1)
           /\ dso' = [dso EXCEPT ![w] = s] /\ uo' = [uo EXCEPT ![w] = nuo]
           /\ pc' = [pc EXCEPT ![w] = "computed"] /\ match' = [match EXCEPT ![w] = cb.m]
-          /\ UNCHANGED <<dropped, dev>>
+          /\ UNCHANGED dev
 
 ImplBegin(w, k, p) ==
   /\ kind' = [kind EXCEPT ![w] = k] /\ parg' = [parg EXCEPT ![w] = p] /\ match' = [match EXCEPT ![w] = p]
   /\ ph' = [ph EXCEPT ![w] = AncSeq(tree, p)]
   /\ pc' = [pc EXCEPT ![w] = "begun"]
-  /\ UNCHANGED <<bucket, alloc, res, att, loc, dso, uo, dropped, dev, top, lost, backIdx, fd>>
+  /\ UNCHANGED <<bucket, alloc, res, att, loc, dso, uo, dev, top, lost, backIdx, fd>>
 
 ImplReadAndCompute(w) ==
   /\ att' = [att EXCEPT ![w] = 1]
@@ -178,7 +182,7 @@ Commit(w) ==
   /\ unused' = loc[w].unused /\ recent' = loc[w].recent
   /\ pc' = [pc EXCEPT ![w] = "committed"]
   /\ top' = (IF loc[w].seq > top.seq THEN [seq |-> loc[w].seq, rev |-> loc[w].cur] ELSE top)
-  /\ UNCHANGED <<alloc, res, kind, parg, match, ph, att, loc, dso, uo, dropped, fd>>
+  /\ UNCHANGED <<alloc, res, kind, parg, match, ph, att, loc, dso, uo, fd>>
 ImplCasWrite(w) ==
   LET nowTomb == cas > 0 /\ tree[cur].d IN
   IF cas = loc[w].casRead THEN Commit(w) /\ UNCHANGED <<dev, lost, backIdx>>
@@ -188,7 +192,7 @@ ImplCasWrite(w) ==
   ELSE IF loc[w].readLive /\ loc[w].tomb /\ nowTomb
        THEN /\ pc' = [pc EXCEPT ![w] = "errored"] /\ dev' = dev \cup {<<"DeleteRaceError", w>>}   \* Rosmar: MissingError, not retried;
             /\ released' = released \cup ({dso[w]} \ {0}) \cup Range(uo[w])              \*   the call returns through the release-on-error block
-            /\ UNCHANGED <<bucket, last, res, kind, parg, match, ph, att, loc, dso, uo, dropped, top, lost, backIdx, fd>>
+            /\ UNCHANGED <<bucket, last, res, kind, parg, match, ph, att, loc, dso, uo, top, lost, backIdx, fd>>
   ELSE /\ att' = [att EXCEPT ![w] = att[w] + 1]
        /\ ImplCompute(w)
        /\ UNCHANGED <<bucket, released, res, kind, parg, ph, top, lost, backIdx, fd>>
@@ -247,8 +251,7 @@ Spec == Init /\ [][Next]_vars
 -----------------------------------------------------------------------------
 (* C05 - evaluated on the model by MC_DocUpdate and on recorded real state by Trace_DocUpdate pass P *)
 Acked == {w \in Writers : res[w].cls = "ok"}
-RevSeqKnown(r) == (r \in DOMAIN initSeq) \/ (r > 10 /\ (r - 10) \in Acked)
-RevSeq(r) == IF r \in DOMAIN initSeq THEN initSeq[r] ELSE res[r - 10].seq
+OwnersAcked(r) == {w \in Acked : res[w].rev = r}        \* acknowledged writers that created revision r (several only for equal deletes)
 ParentOf(w) == IF res[w].rev \in DOMAIN tree THEN tree[res[w].rev].p ELSE parg[w]
 
 NoLostAck ==              \* every acknowledged write's revision is in the document's history afterwards
@@ -257,7 +260,9 @@ OwnSequence ==            \* own sequence, strictly greater than that of the wri
   /\ \A w \in Acked : res[w].seq > 0 /\ \A i \in DOMAIN initSeq : initSeq[i] # res[w].seq
   /\ \A w1, w2 \in Acked : w1 # w2 => res[w1].seq # res[w2].seq
   /\ \A w \in Acked : res[w].rev \in DOMAIN tree =>
-        LET p == tree[res[w].rev].p IN (p # 0 /\ RevSeqKnown(p)) => res[w].seq > RevSeq(p)
+        LET p == tree[res[w].rev].p IN
+          /\ (p \in DOMAIN initSeq => res[w].seq > initSeq[p])
+          /\ (OwnersAcked(p) # {} => \E o \in OwnersAcked(p) : res[w].seq > res[o].seq)
   /\ \A i \in 1..Len(docSeqs) : /\ docSeqs[i] > (IF i = 1 THEN (IF initLen = 0 THEN 0 ELSE initSeq[initLen]) ELSE docSeqs[i - 1])
 OneChildPerParent ==      \* conflicts disallowed: one acknowledged write per parent, single chain, length = initial + acknowledged
   ~allow =>
@@ -281,13 +286,13 @@ SeqSane ==
   /\ seq <= last /\ (backIdx = {} => \A u \in unused : u < seq)
   /\ (cas > 0 => seq \in recent /\ unused \subseteq recent)
   /\ released \cap onDoc = {} /\ released \subseteq 1..last
-NotYetWritten == \A w \in Writers : pc[w] \in {"idle", "begun", "computed", "failed", "errored"} => W(w) \notin DOMAIN tree
+NotYetWritten == \A w \in Writers : pc[w] \in {"begun", "computed", "failed", "errored"} =>
+                   (W(w) \in DOMAIN tree => \E v \in Writers \ {w} : pc[v] \in {"committed", "done"} /\ W(v) = W(w))
 CurIsWinner == cur \in Winners(tree)
-(* C07's accounting, shared: at quiescence every reserved sequence is carried by the document, listed as unused on it,
-   or released - EXCEPT those lost through the named deviation ErrDropsUnused (candidate F2, reported under C07) *)
+(* C07's accounting, shared: at quiescence every reserved sequence is carried by the document (now or earlier), listed as
+   unused on it, or released *)
 Leaked == (1..last) \ (onDoc \cup released)
-AccountedModuloDrop == (quiesced /\ backIdx = {}) => Leaked \subseteq dropped
-SequencesAccounted  == quiesced => Leaked = {}          \* NOT an invariant of the transcription (F2)
+SequencesAccounted == quiesced => Leaked = {}
 
 (* What the exhaustive run establishes for the transcription, and what pass C checks on real runs: the property with
    exactly the exceptions the named deviations explain - an acknowledged revision may be missing only if a
@@ -302,7 +307,9 @@ X_OwnSequence ==
   /\ \A w \in Acked : res[w].seq > 0 /\ \A i \in DOMAIN initSeq : initSeq[i] # res[w].seq
   /\ \A w1, w2 \in Acked : w1 # w2 => res[w1].seq # res[w2].seq
   /\ \A w \in Acked : res[w].rev \in DOMAIN tree =>
-        LET p == tree[res[w].rev].p IN (p # 0 /\ RevSeqKnown(p)) => res[w].seq > RevSeq(p)
+        LET p == tree[res[w].rev].p IN
+          /\ (p \in DOMAIN initSeq => res[w].seq > initSeq[p])
+          /\ (OwnersAcked(p) # {} => \E o \in OwnersAcked(p) : res[w].seq > res[o].seq)
   /\ \A i \in (1..Len(docSeqs)) \ backIdx :
         docSeqs[i] > (IF i = 1 THEN (IF initLen = 0 THEN 0 ELSE initSeq[initLen]) ELSE docSeqs[i - 1])
 X_OneChildPerParent ==
